@@ -89,6 +89,17 @@ func tinyJPEG() []byte {
 	return []byte("\xff\xd8\xff\xe2\x00\x14ICC_PROFILE\x00\x01\x01abcd\xff\xc0\x00\x11\x08\x00\x20\x00\x30\x03\x01\x22\x00\x02\x11\x01\x03\x11\x01\xff\xda\x00\x0c\x03\x01\x00\x02\x11\x03\x11\x00\x3f\x00\x00")
 }
 
+// twoChunkJPEG carries an ICC profile split over two APP2 segments (stored in
+// reverse order); tag makes the profile bytes distinct per goroutine.
+func twoChunkJPEG(tag byte) []byte {
+	b := []byte("\xff\xd8")
+	b = append(b, []byte("\xff\xe2\x00\x16ICC_PROFILE\x00\x02\x02")...)
+	b = append(b, tag, tag+1, tag+2, tag+3, tag+4, tag+5)
+	b = append(b, []byte("\xff\xe2\x00\x14ICC_PROFILE\x00\x01\x02")...)
+	b = append(b, tag+9, tag+8, tag+7, tag+6)
+	return append(b, []byte("\xff\xc0\x00\x11\x08\x00\x20\x00\x30\x03\x01\x22\x00\x02\x11\x01\x03\x11\x01\xff\xda\x00\x0c\x03\x01\x00\x02\x11\x03\x11\x00\x3f\x00\x00")...)
+}
+
 func tinyWebP() []byte {
 	return []byte("RIFF\x1a\x00\x00\x00WEBPVP8L\x0d\x00\x00\x00\x2f\x13\x40\x02\x10\x01\x02\x03\x04\x05\x00\x00\x00")
 }
@@ -130,6 +141,7 @@ func scenarios() []scenario {
 			scenario{c.name + "/two calls each", par(seq(from(10), to(0.1)), seq(to(0.9), from(65000)))},
 			scenario{c.name + "/first From16Bit x3", par(from(1), from(2), from(65535))},
 			scenario{c.name + "/first To16Bit x3", par(to(0.1), to(0.2), to(1))},
+			scenario{c.name + "/first use x4 mixed", par(from(7), to(0.7), lin(77), enc(777))},
 		)
 	}
 	out = append(out,
@@ -220,6 +232,18 @@ func scenarios() []scenario {
 			out = append(out, scenario{fmt.Sprintf("image/%s parallelism %d", ic.name, p), par(func() string { return ic.run(p) })})
 		}
 	}
+	// more workers than fit evenly, taller image
+	tall := func(p int) string {
+		src := image.NewRGBA64(image.Rect(0, 0, 2, 7))
+		fillPix(src.Pix, 9)
+		d := image.NewRGBA64(image.Rect(0, 0, 2, 7))
+		adobergb.LineariseImage(d, src, p)
+		return pixString(d.Pix)
+	}
+	for _, p := range []int{5, 11} {
+		p := p
+		out = append(out, scenario{fmt.Sprintf("image/adobergb.LineariseImage RGBA64 2x7 parallelism %d", p), par(func() string { return tall(p) })})
+	}
 	// two image transforms at once (each with its own workers), tables first touched inside workers
 	out = append(out, scenario{"image/two transforms at once", par(
 		func() string { return imgs[0].run(2) },
@@ -229,13 +253,33 @@ func scenarios() []scenario {
 	out = append(out,
 		scenario{"meta/two pngmeta.Load", par(loadString(pngmeta.Load, tinyPNG()), loadString(pngmeta.Load, tinyPNG()))},
 		scenario{"meta/two jpegmeta.Load", par(loadString(jpegmeta.Load, tinyJPEG()), loadString(jpegmeta.Load, tinyJPEG()))},
+		scenario{"meta/two jpegmeta.Load multi-chunk ICC", par(loadString(jpegmeta.Load, twoChunkJPEG(0x10)), loadString(jpegmeta.Load, twoChunkJPEG(0x80)))},
+		scenario{"meta/autometa.Load x2 multi-chunk ICC", par(loadString(autometa.Load, twoChunkJPEG(0x20)), loadString(autometa.Load, twoChunkJPEG(0x90)))},
 		scenario{"meta/two webpmeta.Load", par(loadString(webpmeta.Load, tinyWebP()), loadString(webpmeta.Load, tinyWebP()))},
 		scenario{"meta/autometa.Load x2 different formats", par(loadString(autometa.Load, tinyJPEG()), loadString(autometa.Load, tinyWebP()))},
+		scenario{"meta/autometa.Load x3 png jpeg webp", par(loadString(autometa.Load, tinyPNG()), loadString(autometa.Load, tinyJPEG()), loadString(autometa.Load, tinyWebP()))},
+		scenario{"meta/autometa.Load vs jpegmeta.Load same file", par(loadString(autometa.Load, tinyJPEG()), loadString(jpegmeta.Load, tinyJPEG()))},
 		scenario{"ciexyz/two adaptations", par(
 			func() string { return fmt.Sprint(ciexyz.AdaptBetweenXYYWhitePoints(ciexyy.D50, ciexyy.D65)) },
 			func() string {
 				return fmt.Sprint(ciexyz.AdaptBetweenXYYWhitePoints(ciexyy.D65, ciexyy.D50).Apply(ciexyz.Color{X: 0.3, Y: 0.4, Z: 0.5}))
 			})},
+	)
+	// larger workloads, only for the free-running -race pass (name prefix "free/")
+	bigLin := func(name string, f func(dst *image.RGBA64, src image.Image, p int), p int) scenario {
+		return scenario{fmt.Sprintf("free/%s 100x120 parallelism %d", name, p), par(func() string {
+			src := image.NewRGBA64(image.Rect(0, 0, 100, 120))
+			fillPix(src.Pix, 5)
+			d := image.NewRGBA64(image.Rect(0, 0, 100, 120))
+			f(d, src, p)
+			return pixString(d.Pix[:64])
+		})}
+	}
+	out = append(out,
+		bigLin("srgb.LineariseImage", func(d *image.RGBA64, s image.Image, p int) { srgb.LineariseImage(d, s, p) }, 4),
+		bigLin("adobergb.LineariseImage", func(d *image.RGBA64, s image.Image, p int) { adobergb.LineariseImage(d, s, p) }, 4),
+		bigLin("prophotorgb.EncodeImage", func(d *image.RGBA64, s image.Image, p int) { prophotorgb.EncodeImage(d, s, p) }, 7),
+		bigLin("displayp3.EncodeImage", func(d *image.RGBA64, s image.Image, p int) { displayp3.EncodeImage(d, s, p) }, 3),
 	)
 	return out
 }
